@@ -22,12 +22,14 @@ def main():
     ap.add_argument("--props", default=None)
     ap.add_argument("--tier", default="quick")
     ap.add_argument("--jobs", type=int, default=4)
+    ap.add_argument("--record", action="store_true", help="write neutral/RESULTS.json (all checks, all patches)")
     ap.add_argument("--dir", default=os.path.join(VERIF, "neutral"))
     a = ap.parse_args()
     names = a.patches or sorted(f for f in os.listdir(a.dir) if f.endswith(".diff"))
     props = a.props.split(",") if a.props else sorted(
         f[:-3] for f in os.listdir(os.path.join(VERIF, "rules")) if f.startswith("C") and f.endswith(".py"))
     bad = [0]
+    results = {}
 
     def do(n):
         tmp = tempfile.mkdtemp(prefix="neutral.", dir="/tmp")
@@ -56,12 +58,20 @@ def main():
                 for l in [l for l in out.splitlines() if ("[%s." % p) in l or "ANALYSIS-BROKEN" in l or "Traceback" in l or "Error" in l][:4]:
                     lines.append("      %s" % l[:300])
             print("\n".join(lines), flush=True)
+            txt = open(os.path.join(a.dir, n)).read()
+            results[n] = {"files": sorted(set(l[6:] for l in txt.splitlines() if l.startswith("+++ b/"))),
+                          "changed_lines": sum(1 for l in txt.splitlines() if (l.startswith("+") or l.startswith("-")) and
+                                               not l.startswith("+++") and not l.startswith("---")),
+                          "checks_run": len(res), "alarms": ["%s(rc=%d)" % (p, rc) for p, rc, _ in noisy]}
         finally:
             shutil.rmtree(tmp, ignore_errors=True)
             import hashlib
             shutil.rmtree(os.path.join(VERIF, "build", "facts", hashlib.sha256(tmp.encode()).hexdigest()[:8]), ignore_errors=True)
     with ThreadPoolExecutor(a.jobs) as ex:
         list(ex.map(do, names))
+    if a.record:
+        import json
+        json.dump(results, open(os.path.join(a.dir, "RESULTS.json"), "w"), indent=1, sort_keys=True)
     return 1 if bad[0] else 0
 
 
